@@ -117,7 +117,7 @@ public:
      */
     AddressRangeIterator operator++(int) {
         AddressRangeIterator copy(*this);
-        (*this)++;
+        ++(*this);
         return copy;
     }
 private:
